@@ -11,7 +11,7 @@ import os
 import vlib
 
 PROPS = ['Rangers.Props.C14', 'Rangers.Props.C14E', 'Rangers.Props.C14U', 'Rangers.Props.C14G',
-         'Rangers.Props.C14W', 'Rangers.Props.C14J', 'Rangers.Props.C14T']
+         'Rangers.Props.C14W', 'Rangers.Props.C14J', 'Rangers.Props.C14T', 'Rangers.Props.C14P']
 DRIVERS = ['C14']
 META = dict(
     level='proof',
@@ -103,15 +103,36 @@ def search(ctx, hints):
     import shutil
     shutil.rmtree(cwd, ignore_errors=True)
     if rc != 0:
+        # violations are written and flushed when found: a crash or time-out must not lose them
         res['error'] = 'searcher exited %d: %s' % (rc, (se or so)[-800:])
+        if os.path.exists(out):
+            for line in open(out):
+                try:
+                    v = json.loads(line)
+                    res['violations'].append(dict(key=v['key'], desc=v['desc'], replay=dict(v.get('replay', {}))))
+                except Exception:
+                    pass
         return res
+    digest = None
     for line in so.split('\n'):
         if line.startswith('STATS '):
             st = json.loads(line[6:])
+            digest = st.get('scenario_digest')
             res['evaluations'] = st.get('evaluations', 0)
             res['distinct_nontrivial'] = st.get('evaluations', 0)
             res['samples'] = st.get('samples', [])
             res['results'] = st.get('results', {})
+    # process-local history: the same fixed scenario in a CLEAN process must give the same digest
+    rcc, soc, sec_ = vlib.run([binp, 'mode=scenario'], cwd=ctx.scratch('c14c'), env=dict(VERIF_SEED=str(ctx.seed)), timeout=300)
+    clean = None
+    for line in soc.split('\n'):
+        if line.startswith('DIGEST '):
+            clean = line[7:].strip()
+    res['history_check'] = dict(clean_process=clean, after_history=digest, equal=(clean == digest and clean is not None))
+    if clean is None or digest is None or clean != digest:
+        res['violations'].append(dict(key='history-dependent-result',
+                                      desc='fixed scenario digest in a clean process (%s) differs from the digest after the searcher history (%s)' % (clean, digest),
+                                      replay=dict(command='harness/bin/c14s mode=scenario  vs  mode=search (scenario_digest in STATS)')))
     res['concurrency_note'] = ('S7 runs Pair/VerifySig/Sign/HashToPoint from several goroutines on distinct inputs and compares '
                                'with the sequential results: sampled schedules, EVIDENCE not proof (see results conc:*)')
     if ctx.thorough():
